@@ -16,6 +16,8 @@ def one(sid):
     d = os.path.join(VERIF, 'seeded', sid)
     meta = json.load(open(os.path.join(d, 'meta.json')))
     want = [p for p, r in meta['checks_run'].items() if r['fired']]
+    if not want:
+        return sid, 'ok (recorded as not judged: ' + meta.get('not_judged_because', '?')[:80] + ')'
     r = subprocess.run([os.path.join(VERIF, 'tools', 'seedcheck.py'), d, ','.join(want)], capture_output=True, text=True)
     try:
         res = json.loads(r.stdout)
@@ -30,5 +32,5 @@ with concurrent.futures.ThreadPoolExecutor(jobs) as ex:
     bad = 0
     for sid, status in ex.map(one, ids):
         print(f'{sid:<60} {status}', flush=True)
-        bad += status != 'ok'
+        bad += not status.startswith('ok')
 print(f'{len(ids)} seeds, {bad} not ok')
